@@ -688,9 +688,10 @@ func (r *c13Run) longLocators(st *c13Store, sizes []int) {
 				case "first":
 					pos = rng.Intn(100)
 				case "middle":
-					pos = 100 + rng.Intn(n-200+1)
 					if n <= 200 {
 						pos = 100 + rng.Intn(n-100)
+					} else {
+						pos = 100 + rng.Intn(n-200+1)
 					}
 				default:
 					pos = n - 1 - rng.Intn(100)
